@@ -80,9 +80,10 @@ func (p *PropertyDescriptor) IsGeneric() bool {
 }
 
 func (p *PropertyDescriptor) toValue(r *Runtime) Value {
-	if p.jsDescriptor != nil {
-		return p.jsDescriptor
-	}
+	// FromPropertyDescriptor: always a fresh object holding the fields already read, never the caller's original
+	// descriptor object (which a defineProperty trap could read a second time, or see extra properties of).
+	// A descriptor read from a script object is never Empty() (jsDescriptor is set), so {} yields an empty object;
+	// undefined is only returned for the zero PropertyDescriptor of the Go API ("no such property").
 	if p.Empty() {
 		return _undefined
 	}
